@@ -157,6 +157,14 @@ def run(ctx, ck):
     ck.rule('R-SYM.ground-halves', 'statements selecting one half of the ground flags select the other too')
     nsel, nst = check_ground_symmetry(ctx, ck)
     ck.floor('statements selecting a half of the ground flags', nst, 3)
+    # the closed-form self term describes one segment: its length and its radius are of the same pulse
+    ck.rule('R-ROLE.self-term', 'length and radius combined in one closed-form potential term belong to the same pulse of the pair')
+    from ._roles import check_self_term_roles
+    ck.floor('closed-form terms combining length and radius', check_self_term_roles(ctx, ck), 2)
+    # the fill shortcuts of a grounded pulse are only valid for an exactly vertical segment
+    ck.rule('R-LIT.vertical-exact', 'grounded-and-not-vertical is decided by exact zero tests of the horizontal direction components')
+    from ._sym import check_vertical_exact
+    ck.floor('tests in Pulse.is_non_vertical_grounded', check_vertical_exact(ctx, ck), 1)
     # D3: the geometry every term of a junction pulse is computed from
     ck.rule('R-SIB.junction-geometry', 'outer half of a junction pulse on the neighbour segment touching the junction')
     from ._creation import check_neighbour_segment
